@@ -222,8 +222,10 @@ def run(rep, tier):
     for f in ws:
         rep.analysed(f)
         vname = f.j["params"][1]["name"]
-        reopens = any(n.get("k") == "mcall" and (n.get("callee") or "").endswith("openAttribute") for n in f.walk())
-        fo = Fold(f, inline=False, record_calls=r"createAttribute$|Attribute::write$").run()
+        # the create-or-reopen step may live in a helper of the writer class
+        helpers_ = [g_ for n in f.walk() if n.get("k") in ("call", "mcall") and "CheckpointWriter::" in (n.get("callee") or "") for g_ in F.find(n["callee"]) if g_.j.get("body")]
+        reopens = any(n.get("k") == "mcall" and (n.get("callee") or "").endswith("openAttribute") for g_ in [f] + helpers_ for n in g_.walk())
+        fo = Fold(f, inline=lambda q_, g_: "CheckpointWriter::" in q_ and not q_.endswith("::WriteScalar"), record_calls=r"createAttribute$|Attribute::write$").run()
         cr = [e for e in fo.events if e["kind"] == "call" and e["callee"].endswith("createAttribute")]
         wrt = [e for e in fo.events if e["kind"] == "call" and e["callee"].endswith("write")]
         kind = kind_of(f.j["sig"])
